@@ -6,6 +6,7 @@ package we
 import (
 	"context"
 	"encoding/hex"
+	"encoding/json"
 	"errors"
 	"fmt"
 	"io"
@@ -166,6 +167,14 @@ type Scenario struct {
 	RPCs    []RPC          `json:"rpcs"`
 	Actions []Action       `json:"actions,omitempty"`
 	Pool    bool           `json:"tracking_pool,omitempty"`
+	// Ext carries the configuration of optional extensions (see ext.go): the
+	// key selects a registered extension, the value is its own JSON config.
+	Ext map[string]json.RawMessage `json:"ext,omitempty"`
+	// Target overrides the dial target (default "passthrough:///srv0");
+	// Listeners lists extra simulated server addresses besides "srv0", all
+	// served by the same grpc.Server.
+	Target    string   `json:"target,omitempty"`
+	Listeners []string `json:"listeners,omitempty"`
 }
 
 func (s *Scenario) SchedP() *core.Sched { return &s.Sched }
@@ -252,6 +261,9 @@ type run struct {
 	pool   *trackPool
 	faulty bool
 	trace  bool
+	exts   []Ext
+	Conn   *grpc.ClientConn
+	Srv    *grpc.Server
 	// request HEADERS seen on the wire (client wrote), for C09
 	reqHeaders []reqHdr
 }
@@ -340,6 +352,11 @@ func Run(e *core.Env, sc *Scenario) {
 		w.rpcs[r.ID] = &rpcState{r: r, sStarted: map[int][]int{}, sSubmitted: map[int][]int{}, srvReturned: map[int]*status.Status{}, srvRecv: map[int]int{}, srvMD: map[int]metadata.MD{}, srvDeadline: map[int]time.Time{}, srvCtxDoneAt: map[int]time.Time{}, waitingCtx: map[int]bool{}}
 	}
 
+	if !w.initExts() {
+		w.net.Shutdown()
+		return
+	}
+
 	// server
 	sopts := []grpc.ServerOption{grpc.ForceServerCodecV2(rawCodec{}), grpc.UnknownServiceHandler(w.handler)}
 	c := sc.Server
@@ -382,10 +399,17 @@ func Run(e *core.Env, sc *Scenario) {
 	if w.pool != nil {
 		sopts = append(sopts, experimental.BufferPool(w.pool))
 	}
+	for _, x := range w.exts {
+		sopts = append(sopts, x.ServerOpts(w)...)
+	}
 	srv := grpc.NewServer(sopts...)
-	lis := w.net.Listen("srv0")
-	serveDone := make(chan struct{})
-	go func() { srv.Serve(lis); close(serveDone) }()
+	w.Srv = srv
+	serveDone := make(chan struct{}, 16)
+	nlis := 1 + len(sc.Listeners)
+	for _, addr := range append([]string{"srv0"}, sc.Listeners...) {
+		lis := w.net.Listen(addr)
+		go func() { srv.Serve(lis); serveDone <- struct{}{} }()
+	}
 
 	// client
 	dopts := []grpc.DialOption{grpc.WithTransportCredentials(insecure.NewCredentials()), grpc.WithContextDialer(w.net.Dialer()), grpc.WithDefaultCallOptions(grpc.ForceCodecV2(rawCodec{}))}
@@ -439,10 +463,23 @@ func Run(e *core.Env, sc *Scenario) {
 	if w.pool != nil {
 		dopts = append(dopts, experimental.WithBufferPool(w.pool))
 	}
-	conn, err := grpc.NewClient("passthrough:///srv0", dopts...)
+	for _, x := range w.exts {
+		dopts = append(dopts, x.DialOpts(w)...)
+	}
+	target := sc.Target
+	if target == "" {
+		target = "passthrough:///srv0"
+	}
+	conn, err := grpc.NewClient(target, dopts...)
 	if err != nil {
 		e.Violate("harness", "NewClient: %v", err)
+		srv.Stop()
+		w.net.Shutdown()
 		return
+	}
+	w.Conn = conn
+	for _, x := range w.exts {
+		x.Start(w)
 	}
 
 	var wg sync.WaitGroup
@@ -496,9 +533,14 @@ func Run(e *core.Env, sc *Scenario) {
 		e.LogStacks("at quiescence")
 	}
 	w.checkAtEnd()
+	for _, x := range w.exts {
+		x.AtQuiescence(w)
+	}
 	conn.Close()
 	srv.Stop()
-	<-serveDone
+	for i := 0; i < nlis; i++ {
+		<-serveDone
+	}
 	w.net.Shutdown()
 	// let every timer-driven straggler (dial in progress, backoff, ...) finish;
 	// whatever is still blocked after this is a leak
@@ -506,6 +548,9 @@ func Run(e *core.Env, sc *Scenario) {
 	synctest.Wait()
 	if w.pool != nil {
 		w.pool.checkEnd(sc.has("pool"))
+	}
+	for _, x := range w.exts {
+		x.AfterTeardown(w)
 	}
 	e.Notes["ledger"] = w.led.Summary()
 }
@@ -572,6 +617,11 @@ func (w *run) clientRPC(conn *grpc.ClientConn, st *rpcState) {
 	var opts []grpc.CallOption
 	if r.WaitReady {
 		opts = append(opts, grpc.WaitForReady(true))
+	}
+	for _, x := range w.exts {
+		var o []grpc.CallOption
+		ctx, o = x.Call(w, st, ctx)
+		opts = append(opts, o...)
 	}
 	e.Logf("rpc %d start", r.ID)
 	var cs grpc.ClientStream
